@@ -151,6 +151,17 @@ func ruleScannerState(c *Ctx) {
 		c.R.Unknown("T1g-geomlength-use", "wkbcommon.GeomLength", "", "not found")
 		return
 	}
+	// kinds GeomLength has an arm for: for those the result is the exact size
+	armKinds := map[string]bool{}
+	for _, b := range gl.Blocks {
+		for _, in := range b.Instrs {
+			if ta, ok := in.(*ssa.TypeAssert); ok {
+				if k := p.KindOf(ta.AssertedType); k != "" {
+					armKinds[k] = true
+				}
+			}
+		}
+	}
 	uses := 0
 	for _, fn := range p.Funcs() {
 		if fn == gl {
@@ -166,6 +177,12 @@ func ruleScannerState(c *Ctx) {
 				uses++
 				cons := fmt.Sprintf("%s#GeomLength#%d", ShortKey(FuncKey(fn)), ord)
 				ord++
+				if mi, ok := call.Call.Args[0].(*ssa.MakeInterface); ok {
+					if k := p.KindOf(mi.X.Type()); k != "" && armKinds[k] {
+						c.R.OK("T1g-geomlength-use", cons, p.InstrPos(call), "argument is statically a "+k+", which GeomLength sizes exactly")
+						continue
+					}
+				}
 				bad := ""
 				seen := map[ssa.Value]bool{}
 				var walk func(v ssa.Value)
